@@ -677,6 +677,6 @@ def run(tier, seed):
 MANIFEST = {
     "engine": "E",
     "technique": "differential exhaustive enumeration: every derivation function and end-to-end secret chain over the full product of small input alphabets against a hashlib-only implementation of the specification pinned by published vectors",
-    "text": "An independent hashlib-only implementation of the tagged SHA-256d derivations (written from docs/specifications and replayed against the project's published known-answer vectors) is compared byte for byte with the real code: every key/secret function of hashutil over the full product of its argument alphabets, and the chains client secret -> file secret -> per-server lease secret (MutableFileNode, immutable Checker, upload server selector against stub storage servers), write key -> read key -> storage index (all cap classes), write enabler, data key, RSA key -> write key/fingerprint, convergent key -> storage index, and directory child-cap encryption.",
+    "text": "An independent hashlib-only implementation of the tagged SHA-256d derivations (written from docs/specifications and replayed against the project's published known-answer vectors) is compared byte for byte with the real code: every key/secret function of hashutil over the full product of its argument alphabets, and the chains client secret -> file secret -> per-server lease secret (MutableFileNode, immutable Checker, upload server selector against stub storage servers), write key -> read key -> storage index (all cap classes), write enabler, data key, RSA key -> write key/fingerprint, convergent key -> storage index, and directory child-cap encryption. The grid half covers create, overwrite, in-place update, modify and check-and-repair.",
     "note": "Finite alphabets: detects structural mistakes (tag, order, truncation, netstring, wrong seed), which do not depend on the input. The values that reach real storage servers during a real immutable upload, check(add_lease=True) and SDMF/MDMF create, overwrite, in-place update, modify and check-and-repair on the virtual grid (lease secrets, write enabler, storage index) are compared with the same reference.",
 }
